@@ -353,6 +353,41 @@ def _special_case(args):
             out.extend(check_referrer(
                 ref, ev, cmap, case, {"which": which},
                 feats=["area_um", "deform"], override={"area_um": newvals}))
+        elif which == "similar-maps":
+            # several mapped basins whose maps differ only slightly (also at
+            # large index values): each must keep its own mapping feature
+            import json
+            maps = [np.array([0, 2, 4], dtype=np.uint64),
+                    np.array([0, 2, 3], dtype=np.uint64),
+                    np.array([1000000, 2000000, 3000001], dtype=np.uint64),
+                    np.array([1000000, 2000000, 3000002], dtype=np.uint64),
+                    np.array([2 ** 40, 2 ** 40 + 1, 2 ** 40 + 3],
+                             dtype=np.uint64),
+                    np.array([2 ** 40, 2 ** 40 + 1, 2 ** 40 + 2],
+                             dtype=np.uint64)]
+            r3 = d / "a" / "ref3.rtdc"
+            with RTDCWriter(r3, mode="reset") as hw:
+                hw.store_metadata(gen.complete_meta(3))
+                hw.store_feature("deform", np.arange(3.0))
+                for i, mp in enumerate(maps):
+                    hw.store_basin(f"b{i}", "file", "hdf5",
+                                   [f"/nonexistent/o{i}.rtdc"],
+                                   basin_map=mp, verify=False)
+            with h5py.File(r3, "r") as h5:
+                seen = {}
+                for key in h5["basins"]:
+                    lines = [li.decode() if isinstance(li, bytes) else li
+                             for li in h5["basins"][key][:]]
+                    bd = json.loads(" ".join(lines))
+                    seen[bd["name"]] = np.array(h5["events"][bd["mapping"]])
+            for i, mp in enumerate(maps):
+                got = seen.get(f"b{i}")
+                if got is None or not np.array_equal(got, mp):
+                    out.append(violation(
+                        "dclab.rtdc_dataset.writer:RTDCWriter.store_basin",
+                        "wrong-map-stored", case,
+                        f"basin b{i}: stored map {got} instead of "
+                        f"{mp.tolist()}", {"which": which}))
         elif which == "mapped-chunk-cross":
             # a map crossing chunk boundaries of a 23-event origin
             ev2 = gen.make_events(23, seed=seed)
@@ -394,7 +429,7 @@ def run(ctx):
                                 for bt in ("file", "internal")])
     res3 = par.pmap(_special_case, [(w, ctx.seed, scratch) for w in (
         "moved-together", "origin-removed", "stored-wins",
-        "mapped-chunk-cross")])
+        "mapped-chunk-cross", "similar-maps")])
     viols = []
     nfiles = 0
     for n, vs in res + res2 + res3:
